@@ -251,4 +251,44 @@ theorem direct_jmp_final (arch : Arch) (base : BitVec 64) (ops1 ops2 : List Op) 
       ac_rfl
     · rw [hstep, hx, he] at hok; cases hok
 
+/-- **direct_rip_final.** End to end for x86-64 `[rip + label + disp]` operands encoded directly: in every program
+`ops1 ++ [mem k l disp] ++ ops2 ++ [flatten, resolve]` where label `l` is already bound in the current section (at `off`) when
+the instruction is assembled and the assembler answers kOk, the disp32 found at the site *at the end of the program*, read as the
+CPU does - end of the instruction (field + 4 + trailing immediate bytes) + sign-extended field - is exactly `off + disp`. -/
+theorem direct_rip_final (arch : Arch) (base : BitVec 64) (ops1 ops2 : List Op) (k : MKind) (l : Nat) (disp : BitVec 32) (off : BitVec 64)
+    (h1 : ∀ o ∈ ops1, o.early = true) (h2 : ∀ o ∈ ops2, o.early = true)
+    (ha : (run (State.init arch base) ops1).arch = .x64)
+    (hl : (run (State.init arch base) ops1).labels[l]? = some (.bound (run (State.init arch base) ops1).cur off))
+    (hok : (step (run (State.init arch base) ops1) (.mem k l disp)).2 = .ok) :
+    let s := run (State.init arch base) ops1
+    let sh := k.shape s.arch
+    ∃ v, field (run (State.init arch base) (ops1 ++ [.mem k l disp] ++ ops2 ++ [.flatten, .resolve])).secs
+        { sec := s.cur, offset := s.curOff + sh.lead.length, rel := 0#64, fmt := fmtS 4, label := l } = some v ∧
+      BitVec.ofNat 64 (s.curOff + sh.lead.length + 4 + sh.imm.length) + RefSpec.sextN 4 v = off + disp.signExtend 64 := by
+  intro s sh
+  have ha' : s.arch = .x64 := ha
+  have h64 : s.arch.is32 = false := by rw [ha']; rfl
+  have hstep : step s (.mem k l disp) = x86MemLabel s sh l disp := by
+    simp only [step]
+    rw [if_neg (by rw [ha']; simp)]
+  obtain ⟨hbad, hgood⟩ := direct_rip_site s sh l disp off hl h64
+  cases hr : isInt32 (disp.signExtend 64 - BitVec.ofNat 64 (4 + sh.imm.length) + (off - BitVec.ofNat 64 (s.curOff + sh.lead.length))) with
+  | false => rw [hstep, hbad hr] at hok; cases hok
+  | true =>
+    obtain ⟨hx, harith⟩ := hgood hr
+    generalize (disp.signExtend 64 - BitVec.ofNat 64 (4 + sh.imm.length) + (off - BitVec.ofNat 64 (s.curOff + sh.lead.length))).truncate 32 = r32 at hx harith
+    have hop1 : (step s (.mem k l disp)).1 = s.emit (sh.lead ++ leBytes r32.toNat 4 ++ sh.imm) := by rw [hstep, hx]
+    have hf := direct_field_persists arch base ops1 ops2 (.mem k l disp) h1 h2 sh.lead sh.imm r32.toNat 4
+      { sec := s.cur, offset := s.curOff + sh.lead.length, rel := 0#64, fmt := fmtS 4, label := l } rfl rfl rfl hop1
+    refine ⟨_, hf, ?_⟩
+    have hlt : r32.toNat % 256 ^ 4 = r32.toNat := Nat.mod_eq_of_lt (by have := r32.isLt; omega)
+    rw [hlt]
+    have hs : RefSpec.sextN 4 r32.toNat = r32.signExtend 64 := by
+      unfold RefSpec.sextN
+      show (BitVec.ofNat 32 r32.toNat).signExtend 64 = _
+      rw [BitVec.ofNat_toNat, BitVec.setWidth_eq]
+    rw [hs, ← harith]
+    congr 1
+    rw [Nat.add_assoc, BitVec.ofNat_add]
+
 end AsmjitVerif.CodeHolder
